@@ -208,16 +208,32 @@ class SyncTcp(_Base):
 
 
 class SyncSerial(_Base):
-    """ModbusSingleRequestHandler (the serial server's handler): one read per handle() pass."""
+    """ModbusSingleRequestHandler (the serial server's handler): its serving loop runs once, in its own thread, for the whole
+    history (strict hand-off as for SyncTcp), so a loop that ends or a handler that stops itself stays stopped."""
     name = "syncSerial"
 
     def __init__(self, kind, context, cfg):
+        import threading
         super().__init__(kind, context, cfg)
         self.srv = make_server_stub(kind, context, cfg)
-        self.sock = _FakeSock(self, 1)
-        self.sock.stop_on_empty = True
+        self.sock = _LoopSock(self, 1)
         self.h = S.CustomSingleRequestHandler(self.sock, ("dev", "dev"), self.srv)
-        self.sock.handler = self.h
+        sock, h = self.sock, self.h
+
+        def loop():
+            try:
+                h.running = True
+                h.handle()
+            except Exception as ex:      # ModbusSerialServer.serve_forever has no safety net: this kills the server
+                sock.raised = type(ex).__name__
+            finally:
+                with sock.cv:
+                    sock.dead = True
+                    sock.cv.notify_all()
+        self.th = threading.Thread(target=loop, daemon=True)
+        self.th.start()
+        with sock.cv:
+            sock.cv.wait_for(lambda: sock.dead or sock.waiting, timeout=60)
 
     def open(self):
         self.nconn = 1
@@ -225,14 +241,26 @@ class SyncSerial(_Base):
 
     def feed(self, conn, data):
         self.writes = []
-        raised = ""
-        self.sock.pending = bytes(data)
-        self.h.running = True
-        try:
-            self.h.handle()
-        except Exception as ex:      # ModbusSerialServer.serve_forever has no safety net: this kills the server
-            raised = type(ex).__name__
+        sock = self.sock
+        if sock.dead:
+            # the serving loop has ended: a serial server has nothing that would start it again
+            raised, sock.raised = sock.raised, ""
+            return {"writes": [], "raised": raised, "closed": 0, "note": "serving loop ended"}
+        if not len(data):
+            return {"writes": [], "raised": "", "closed": 0}      # an idle serial line: read() returns nothing, the loop just goes on
+        ok = sock.push(bytes(data))
+        raised, sock.raised = sock.raised, ""
+        if not ok:
+            raised = raised or "HANG"
         return {"writes": list(self.writes), "raised": raised, "closed": 0}
+
+    def close(self):
+        if not self.sock.dead:
+            self.h.running = False
+            with self.sock.cv:
+                self.sock.items.append(b"")
+                self.sock.cv.notify_all()
+        self.th.join(5)
 
 
 class SyncUdp(_Base):
